@@ -81,10 +81,21 @@ def keyJson (kv : Key × Res) : Json :=
     ("nodeRef", Json.str kv.2.refName),
     ("leaves", leavesJson kv.2.leaves)]
 
-def jDef (j : Json) : Except String SrcDef := do
-  let name ← (← j.getObjVal? "name").getStr?
+def jIdent (j : Json) : Except String SqlglotModel.Ident.Ident := do
+  let a ← j.getArr?
+  if h : a.size = 2 then pure ⟨← a[0].getStr?, ← a[1].getBool?⟩ else throw "ident"
+
+def jIdents (j : Json) : Except String (List SqlglotModel.Ident.Ident) := do
+  (← j.getArr?).toList.mapM jIdent
+
+def jDef (j : Json) : Except String KeyedDef := do
+  let key ← jIdents (← j.getObjVal? "key")
   let scopes ← (← (← j.getObjVal? "scopes").getArr?).toList.mapM jScope
-  pure ⟨name, scopes⟩
+  pure ⟨key, scopes⟩
+
+def jRef (j : Json) : Except String (String × List SqlglotModel.Ident.Ident) := do
+  let a ← j.getArr?
+  if h : a.size = 2 then pure (← a[0].getStr?, ← jIdents a[1]) else throw "ref"
 
 def handle (line : String) : Except String String := do
   let j ← Json.parse line
@@ -94,8 +105,14 @@ def handle (line : String) : Except String String := do
   let (scopes, root, inl) ← match j.getObjVal? "defs" with
     | .ok dj => do
       let defs ← (← dj.getArr?).toList.mapM jDef
-      let ex := expandQ some defs (defs.length + 1) scopes0
-      let il := expandQ (fun _ => none) defs (defs.length + 1) scopes0
+      let refs ← (← (← j.getObjVal? "refs").getArr?).toList.mapM jRef
+      let strat ← match SqlglotModel.Ident.Strategy.ofString? (← (← j.getObjVal? "strategy").getStr?) with
+        | some s => pure s
+        | none => throw "strategy"
+      -- keys go through as many normalisation passes as the current source applies (Generated.keyNormalisations)
+      let look := lookupKeyed SqlglotModel.Ident.asciiFns strat SqlglotModel.Generated.C17.keyNormalisations defs refs
+      let ex := expandQ expandTag look (defs.length + 1) scopes0
+      let il := expandQ (fun _ => none) look (defs.length + 1) scopes0
       let cfgI : Cfg := ⟨SqlglotModel.Generated.C17.keyComps, true⟩
       pure (ex.1, ex.2, cols.map fun c => leavesJson (lineageOne cfgI il.1 il.2 c).1.leaves)
     | .error _ => do
